@@ -198,7 +198,8 @@ func genStreamMerge(rng *rand.Rand, n int) []smStep {
 			}
 		}
 	}
-	if rng.Intn(2) == 0 { // read to the end
+	switch rng.Intn(3) {
+	case 0: // read to the end
 		for i := 0; i < n; i++ {
 			if !fin[i] {
 				out = append(out, smStep{A: "end", I: i})
@@ -207,16 +208,45 @@ func genStreamMerge(rng *rand.Rand, n int) []smStep {
 		for k := 0; k < 12; k++ {
 			out = append(out, smStep{A: "next"})
 		}
+	case 1: // a consumer that drains and closes back to back while the inputs finish one after the other
+		out = append(out, smStep{A: "drainclose"})
+		for i := 0; i < n; i++ {
+			if !fin[i] {
+				if rng.Intn(5) == 0 {
+					out = append(out, smStep{A: "srcerr", I: i})
+				} else {
+					out = append(out, smStep{A: "end", I: i})
+				}
+			}
+		}
 	}
 	return out
 }
 
 func runStreamMerge(t *testing.T, n int, steps []smStep) ([]Ev, bool, string) {
+	return runStreamMergeKids(t, n, steps, 0)
+}
+
+// errRaceSteps: a consumer waits, every reader is parked in its input's Next, then input 0 fails: the consumer must
+// see that very error although the other readers wake up with the cancellation error at the same moment
+// (run with kids > 0 the cancellation takes long enough for them to overtake a reader that cancels before it reports)
+func errRaceSteps(n int, items int) []smStep {
+	out := []smStep{}
+	for k := 0; k < items; k++ {
+		out = append(out, smStep{A: "item", I: (k + 1) % n}, smStep{A: "next"})
+	}
+	return append(out, smStep{A: "next"}, smStep{A: "srcerr", I: 0}, smStep{A: "next"}, smStep{A: "next"})
+}
+
+func runStreamMergeKids(t *testing.T, n int, steps []smStep, kids int) ([]Ev, bool, string) {
 	return bubble(t, func(r *Run) {
 		srcs := make([]*gateSrc, n)
 		ins := make([]stream.Stream[int], n)
 		for i := range srcs {
 			srcs[i] = &gateSrc{q: make(chan srcMsg, 64), r: r, idx: i}
+			if i > 0 {
+				srcs[i].kids = kids
+			}
 			ins[i] = srcs[i]
 		}
 		s := stream.Merge(ins...)
@@ -237,8 +267,37 @@ func runStreamMerge(t *testing.T, n int, steps []smStep) ([]Ev, bool, string) {
 			r.evs[len(r.evs)-1]["srcbusy"] = b
 			r.mu.Unlock()
 		}
+		nextRes := func(v int, err error) Ev {
+			switch {
+			case err == nil:
+				return Ev{"k": "val", "v": v, "e": ""}
+			case err == stream.End:
+				return Ev{"k": "end", "v": 0, "e": ""}
+			case err == errSrc:
+				return Ev{"k": "err", "v": 0, "e": "src"}
+			case err == context.Canceled:
+				return Ev{"k": "err", "v": 0, "e": "ctx"}
+			case err == stream.ErrClosedPipe:
+				return Ev{"k": "err", "v": 0, "e": "closedpipe"}
+			}
+			return Ev{"k": "err", "v": 0, "e": "other:" + err.Error()}
+		}
 		do := func(st smStep) {
 			switch st.A {
+			case "drainclose": // a consumer that reads until End / an error and closes at once, without any pause
+				if busy() || closed {
+					return
+				}
+				closed = true
+				go func() {
+					for {
+						res := r.Call("Next", Ev{"ctx": 0}, func() Ev { return nextRes(s.Next(context.Background())) })
+						if res["k"] != "val" {
+							break
+						}
+					}
+					r.Call("Close", Ev{"ctx": 0}, func() Ev { s.Close(); return Ev{"k": "nil", "v": 0, "e": ""} })
+				}()
 			case "item":
 				seq[st.I]++
 				srcs[st.I].q <- srcMsg{0, 100*st.I + seq[st.I]}
@@ -338,6 +397,14 @@ func TestMerge(t *testing.T) {
 			}
 			writeRuns(w, &runs, evs, leak, msg, Ev{"kind": "stream", "n": arity, "nd": 0})
 		}
+	}
+	for i := 0; i < envInt("VH_ERRRACE", 24); i++ {
+		arity := 2 + i%3
+		evs, leak, msg := runStreamMergeKids(t, arity, errRaceSteps(arity, i%3), 1500)
+		if leak {
+			leaks++
+		}
+		writeRuns(w, &runs, evs, leak, msg, Ev{"kind": "stream", "n": arity, "nd": 0})
 	}
 	w.close()
 	report(Ev{"engine": "bubble", "subject": "merge", "runs": runs, "events": w.n, "leaks": leaks})
